@@ -15,6 +15,7 @@ import (
 	"github.com/New-JAMneration/JAM-Protocol/internal/types"
 	"github.com/New-JAMneration/JAM-Protocol/internal/utilities/hash"
 	"github.com/New-JAMneration/JAM-Protocol/internal/utilities/merklization"
+	"github.com/New-JAMneration/JAM-Protocol/internal/zzverif/refpvm"
 	"github.com/New-JAMneration/JAM-Protocol/internal/zzverif/vh"
 )
 
@@ -246,6 +247,16 @@ func vNewHC(r vh.R) *vHC {
 		RefineArgs: RefineArgs{IntegratedPVMMap: IntegratedPVMMap{}, ExtrinsicDataMap: ExtrinsicDataMap{}},
 	}
 	c.add.RefineArgs.TimeSlot = slot
+	if r.Bool() {
+		// an inner machine that exists from the start, with a mixed page map (16 read-write, 17 read-only, 18 absent, 19 read-write):
+		// pages / peek / poke / invoke calls then meet partially mapped ranges without first having to build them
+		pages := map[uint32]*Page{
+			16: {Value: r.Bytes(ZP), Access: MemoryReadWrite},
+			17: {Value: r.Bytes(ZP), Access: MemoryReadOnly},
+			19: {Value: r.Bytes(ZP), Access: MemoryReadWrite},
+		}
+		c.add.IntegratedPVMMap[0] = IntegratedPVMType{ProgramCode: ProgramCode(refpvm.EncodeBlob([]byte{0}, []bool{true}, nil, 1)), Memory: Memory{Pages: pages}, PC: 0}
+	}
 
 	c.mem = &Memory{Pages: map[uint32]*Page{}}
 	for p := uint32(0); p < vRWN; p++ {
